@@ -1,4 +1,6 @@
-(* C11 - WriteBlockWithState preserves the node invariant under any write budget. *)
+(* C11 - every database write of WriteBlock / WriteBlockWithState keeps the
+   database good; WriteBlockWithState preserves the node invariant under any
+   write budget. *)
 From VF.C11 Require Import Model ProofsA ProofsB ProofsC ProofsD ProofsE.
 From Coq Require Import Lia ZifyBool ZifyN ZifyNat.
 Local Open Scope N_scope.
@@ -11,6 +13,7 @@ Hypothesis Hg0 : bnum g = 0.
 
 Notation DInv := (DInv t g).
 Notation Qd := (Qd t).
+Notation Good := (Good t g).
 Notation J := (J t g).
 
 Lemma nodup_height_inj : forall (l : list block) x y, NoDup (map bnum l) -> In x l -> In y l -> bnum x = bnum y -> x = y.
@@ -21,124 +24,113 @@ Proof.
   - exfalso. apply H1. rewrite <- E. apply in_map; auto.
 Qed.
 
+(* ---- the block batch ------------------------------------------------------------------------- *)
+
+Lemma Good_block_batch : forall b d, Good d ->
+  info t (bid b) = Some b -> goodish b -> bnum b <> 0 -> In (bpar b) (d_hdr d) ->
+  (exists p, info t (bpar b) = Some p /\ bnum p + 1 = bnum b) ->
+  let d' := apply_write (block_batch b) d in
+  Good d' /\ d_headB d' = d_headB d /\ In (bid b) (d_hdr d') /\
+  (forall h, In h (d_hdr d) -> In h (d_hdr d')) /\ (forall r, In r (d_state d) -> In r (d_state d')).
+Proof.
+  intros b d [HD [HB HQ]] Hinfo Hgd Hn0 Hpar Hp d'.
+  assert (E : d' = apply_ew (WHdr (bid b)) (apply_ew (WHNum (bid b)) (apply_ew (WBody (bid b)) d))) by reflexivity.
+  rewrite E. split; [split; [|split]|].
+  - assert (H1 : DInv (apply_ew (WHNum (bid b)) (apply_ew (WBody (bid b)) d)))
+      by (apply (DInv_hnum t g); apply (DInv_body t g); auto).
+    apply (DInv_hdr t g); auto; simpl; try (apply In_addN; auto).
+  - intros h Hh. simpl in *. apply In_addN. apply In_addN in Hh. destruct Hh as [->|Hh]; auto.
+  - apply (Qd_add t (WHdr (bid b))); auto. apply (Qd_add t (WHNum (bid b))); auto. apply (Qd_add t (WBody (bid b))); auto.
+  - simpl. repeat split; auto.
+    + apply In_addN; auto.
+    + intros h Hh. apply In_addN; auto.
+Qed.
+
+Lemma Good_state : forall r d, Good d -> Good (apply_write [WState r] d).
+Proof.
+  intros r d [HD [HB HQ]]. split; [|split].
+  - apply (DInv_state t g); auto.
+  - exact HB.
+  - apply (Qd_add t (WState r)); auto.
+Qed.
+
+(* ---- the head-switch batch --------------------------------------------------------------------- *)
+
 Lemma DInv_win_write : forall d bs w, DInv d ->
   (forall x, In x bs -> info t (bid x) = Some x /\ In (bid x) (d_hdr d)) ->
-  win_write_ok bs w -> DInv (apply_write w d).
+  win_write_ok bs w ->
+  DInv (apply_write w d) /\ d_hdr (apply_write w d) = d_hdr d /\ d_body (apply_write w d) = d_body d.
 Proof.
-  intros d bs w HD Hbs [Hs|[[x [Hx ->]]|[x [Hx ->]]]].
-  - apply DInv_soft_write; auto.
-  - destruct (Hbs x Hx). apply (DInv_canon t g); auto.
-  - destruct (Hbs x Hx). apply (DInv_headB t g); auto.
+  intros d bs w HD Hbs [Hs|[x [Hx ->]]].
+  - split; [apply (DInv_soft_write t g); auto|].
+    clear HD Hbs. revert d. induction w as [|e w IH]; intros d; [simpl; auto|].
+    cbn [forallb] in Hs. apply andb_true_iff in Hs. destruct Hs as [H1 H2].
+    rewrite apply_write_cons. destruct (IH H2 (apply_ew e d)) as [A B].
+    destruct (soft_ew_fields e d H1) as [E1 [E2 [E3 _]]]. rewrite A, B. auto.
+  - destruct (Hbs x Hx) as [I1 I2].
+    assert (E : apply_write (stage_head x) d =
+                apply_ew (WHeadB (bid x)) (apply_ew (WCanon (bnum x) (bid x)) (apply_ew (WHeadH (bid x)) d))) by reflexivity.
+    rewrite E. split; [|simpl; auto].
+    apply (DInv_headB t g); [|simpl; auto].
+    apply (DInv_canon t g); auto. apply (DInv_soft t g); auto.
 Qed.
 
-Lemma win_write_hdr : forall bs w d, win_write_ok bs w -> d_hdr (apply_write w d) = d_hdr d /\ d_body (apply_write w d) = d_body d.
-Proof.
-  intros bs w d [Hs|[[x [Hx ->]]|[x [Hx ->]]]]; [|simpl; auto|simpl; auto].
-  revert d. induction w as [|e w IH]; intros d; [simpl; auto|].
-  cbn [forallb] in Hs. apply andb_true_iff in Hs. destruct Hs as [H1 H2].
-  rewrite apply_write_cons. destruct (IH H2 (apply_ew e d)) as [A B].
-  destruct (soft_ew_fields e d H1) as [E1 [E2 [E3 _]]]. rewrite A, B. auto.
-Qed.
-
-(* the complete window, under any budget *)
-Lemma J_window : forall s2 sF ncl diff rc b pth oc c hb,
-  J s2 -> alive s2 ->
-  same sF (wrs (window_ws ncl diff rc b) s2) -> cur sF = bid b -> rc_ok rc ->
-  info t (bid b) = Some b -> In (broot b) (d_state (disk_of s2)) ->
-  info t (d_headB (disk_of s2)) = Some hb -> In (bid b) (d_hdr (disk_of s2)) ->
-  down_path t (disk_of s2) pth c -> hd c pth = b ->
-  down_path t (disk_of s2) oc c -> hd c oc = hb -> info t (bid c) = Some c ->
+Lemma Good_switch : forall d ncl diff rc b pth oc c hb,
+  Good d -> rc_ok rc ->
+  info t (bid b) = Some b -> In (broot b) (d_state d) ->
+  info t (d_headB d) = Some hb -> In (bid b) (d_hdr d) ->
+  down_path t d pth c -> hd c pth = b ->
+  down_path t d oc c -> hd c oc = hb -> info t (bid c) = Some c ->
   incl ncl pth -> (forall x, In x pth -> x = b \/ In x ncl) -> NoDup (map bnum ncl) ->
   (forall tx, ~ In tx diff -> ~ In tx (all_txs ncl) -> ~ In tx (btxs b) -> ~ In tx (all_txs oc)) ->
-  J sF.
+  let d' := apply_write (concat (switch_l ncl diff rc b)) d in
+  Good d' /\ d_headB d' = bid b.
 Proof.
-  intros s2 sF ncl diff rc b pth oc c hb [HD [HA HX]] Ha2 Hsame Hcur Hrc Hb Hst Hhb Hsb Hp Htop Hoc Hoctop Hc Hincl Hcover Hnd Hdiff.
-  destruct (HA Ha2) as [Hb0 [HQ Hc2]].
-  set (d2 := disk_of s2) in *.
-  set (W := window_ws ncl diff rc b) in *.
-  set (dF := applyl (map snd W) d2).
+  intros d ncl diff rc b pth oc c hb [HD [HB HQ]] Hrc Hb Hst Hhb Hsb Hp Htop Hoc Hoctop Hc Hincl Hcover Hnd Hdiff d'.
+  assert (Ed : d' = applyl (switch_l ncl diff rc b) d) by (apply apply_write_concat).
+  assert (Ed2 : d' = applyl (switch_l2 ncl diff rc b) d).
+  { rewrite <- apply_write_concat, switch_l2_concat. reflexivity. }
   assert (Hbin : forall x, In x pth -> In b pth).
   { intros x Hx. destruct pth as [|y pth]; [contradiction|]. simpl in Htop. subst y. left; auto. }
-  assert (Hstored : forall x, In x (b :: pth) -> info t (bid x) = Some x /\ In (bid x) (d_hdr d2)).
-  { intros x [<-|Hx]; auto. destruct (down_path_link t d2 pth c Hp x Hx) as [I _]; auto. }
-  assert (Hshape : forall w, In w (map snd W) -> win_write_ok (b :: pth) w).
-  { apply window_ws_shape; auto.
+  assert (Hstored : forall x, In x (b :: pth) -> info t (bid x) = Some x /\ In (bid x) (d_hdr d)).
+  { intros x [<-|Hx]; auto. destruct (down_path_link t d pth c Hp x Hx) as [I _]; auto. }
+  assert (Hshape : forall w, In w (switch_l2 ncl diff rc b) -> win_write_ok (b :: pth) w).
+  { apply switch_l2_shape; auto.
     - intros x Hx. right. apply Hincl; auto.
     - left; auto. }
-  (* DInv and unchanged header/body sets along every prefix *)
-  assert (Hpre : forall pre post, map snd W = pre ++ post ->
-            DInv (applyl pre d2) /\ d_hdr (applyl pre d2) = d_hdr d2 /\ d_body (applyl pre d2) = d_body d2).
-  { apply (prefix_inv (fun d => DInv d /\ d_hdr d = d_hdr d2 /\ d_body d = d_body d2)); auto.
+  assert (Hpre : forall pre post, switch_l2 ncl diff rc b = pre ++ post ->
+            DInv (applyl pre d) /\ d_hdr (applyl pre d) = d_hdr d /\ d_body (applyl pre d) = d_body d).
+  { apply (prefix_inv (fun x => DInv x /\ d_hdr x = d_hdr d /\ d_body x = d_body d)); auto.
     intros pre w post E [PD [PH PB]].
     assert (Hw : win_write_ok (b :: pth) w). { apply Hshape. rewrite E. apply in_or_app; right; left; auto. }
-    destruct (win_write_hdr (b :: pth) w (applyl pre d2) Hw) as [E1 E2].
-    split; [|rewrite E1, E2; auto].
-    eapply DInv_win_write; eauto. intros x Hx. rewrite PH. auto. }
-  assert (HFull : DInv dF /\ d_hdr dF = d_hdr d2 /\ d_body dF = d_body d2).
-  { apply (Hpre (map snd W) []). rewrite app_nil_r; auto. }
-  destruct HFull as [HDF [HhF HbF]].
-  (* the complete switch is consistent *)
-  assert (HQF : Qd dF).
-  { destruct (window_fields ncl diff rc b d2 Hrc) as [[S1 [S2 [S3 S4]]] [Fh [Fc Fl]]]. fold W in S1, S2, S3, S4, Fh, Fc, Fl. fold dF in S1, S2, S3, S4, Fh, Fc, Fl.
-    pose proof (down_path_nodup t d2 pth c Hp) as Hndp.
-    apply (switch_Qd t g d2 dF b c pth oc); auto.
-    - rewrite S4; auto.
-    - exists hb; auto.
-    - unfold canon. rewrite Fc, alookup_aset, N.eqb_refl; auto.
-    - intros x Hx. unfold canon. rewrite Fc, alookup_aset.
+    destruct (DInv_win_write (applyl pre d) (b :: pth) w PD) as [W1 [W2 W3]]; auto.
+    - intros x Hx. rewrite PH. auto.
+    - split; auto. split; congruence. }
+  destruct (Hpre (switch_l2 ncl diff rc b) []) as [HDF [HhF HbF]]; [rewrite app_nil_r; auto|].
+  rewrite <- Ed2 in HDF, HhF, HbF.
+  destruct (switch_fields ncl diff rc b d Hrc) as [[S1 [S2 [S3 S4]]] [Fh [Fc Fl]]]. rewrite <- Ed in S1, S2, S3, S4, Fh, Fc, Fl.
+  split; [|exact Fh]. split; [exact HDF|]. split.
+  - intros h Hh. rewrite HhF. rewrite HbF in Hh. auto.
+  - pose proof (down_path_nodup t d pth c Hp) as Hndp.
+    apply (switch_Qd t g d d' b c pth oc); auto.
+    + rewrite S4; auto.
+    + exists hb; auto.
+    + unfold canon. rewrite Fc, alookup_aset, N.eqb_refl; auto.
+    + intros x Hx. unfold canon. rewrite Fc, alookup_aset.
       destruct (bnum b =? bnum x) eqn:E.
-      + apply N.eqb_eq in E. assert (x = b) by (apply (nodup_height_inj pth); eauto). subst; auto.
-      + destruct (Hcover x Hx) as [->|Hin]; [rewrite N.eqb_refl in E; discriminate|].
+      * apply N.eqb_eq in E. assert (x = b) by (apply (nodup_height_inj pth); eauto). subst; auto.
+      * destruct (Hcover x Hx) as [->|Hin]; [rewrite N.eqb_refl in E; discriminate|].
         apply canon_fold_in; auto.
-    - intros n Hnb Hn. unfold canon. rewrite Fc, alookup_aset.
+    + intros n Hnb Hn. unfold canon. rewrite Fc, alookup_aset.
       destruct (bnum b =? n) eqn:E; [apply N.eqb_eq in E; congruence|].
       apply canon_fold_other. intros x Hx. apply Hn; auto.
-    - intros tx h Hin. rewrite Fl in Hin.
+    + intros tx h Hin. rewrite Fl in Hin.
       apply look_txs_in in Hin. destruct Hin as [[-> Htx]|[Hin Hnb]].
-      + left; exists b; auto.
-      + apply unlook_in in Hin. destruct Hin as [Hin Hnd2].
+      * left; exists b; auto.
+      * apply unlook_in in Hin. destruct Hin as [Hin Hnd2].
         apply look_fold_in in Hin. destruct Hin as [[x [Hx [-> Htx]]]|[Hin Hnn]].
-        * left; exists x. split; [right; apply Hincl; auto|auto].
-        * right; split; auto. }
-  (* assemble J for the final state *)
-  set (sW := wrs W s2) in *.
-  destruct Hsame as [SA SB SC].
-  unfold ProofsB.J. rewrite SA. unfold alive. rewrite SB, SC. fold (alive sW).
-  destruct (alive_dec sW) as [HaW|HdW].
-  - assert (Ed : disk_of sW = dF) by (apply wrs_alive_disk; auto).
-    rewrite Ed. split; auto. split.
-    + intros _. split; [|split; auto].
-      * intros h Hh. rewrite HhF. rewrite HbF in Hh. auto.
-      * rewrite Hcur. destruct (window_fields ncl diff rc b d2 Hrc) as [_ [Fh _]]. symmetry; exact Fh.
-    + intros Hx; contradiction.
-  - assert (HnW : ~ alive sW) by (intros Hx; apply Hx; auto).
-    destruct (wrs_dead_split W s2 Ha2 HnW) as [pre [m [w [post [EW [Hw [Ed Ec]]]]]]].
-    fold sW in Ed, Ec. fold d2 in Ed.
-    assert (Esplit : map snd W = map snd pre ++ w :: map snd post) by (rewrite EW, map_app; auto).
-    split.
-    + rewrite Ed.
-      destruct (Hpre (map snd pre ++ [w]) (map snd post)) as [PD _].
-      { rewrite Esplit, <- app_assoc; auto. }
-      rewrite applyl_app in PD. exact PD.
-    + split; [intros Hx; contradiction|].
-      intros _ Hm. rewrite Ec in Hm. rewrite Hm in EW.
-      assert (post = []) by (apply (window_ws_last ncl diff rc b pre w post); exact EW). subst post.
-      rewrite Ed. replace (apply_write w (applyl (map snd pre) d2)) with dF; auto.
-      unfold dF. rewrite EW, map_app, applyl_app. reflexivity.
-Qed.
-
-Lemma same_set_future : forall f s, same (set_future f s) s.
-Proof. intros; constructor; reflexivity. Qed.
-
-(* dead: nothing happens any more *)
-Lemma reorg_dead_same : forall s c b s', budget s = Some O -> reorg t s c b = Some s' -> same s' s.
-Proof.
-  intros s c b s' Hd H. unfold reorg in H.
-  destruct (reorg_chains t (disk_of s) c b) as [[oc nc]|]; try discriminate. inversion H; subst s'.
-  pose proof (reorg_apply_same (rev nc) s s (same_refl s)) as Hs.
-  rewrite (wrs_dead _ _ Hd) in Hs.
-  assert (Hb : budget (reorg_apply (rev nc) s) = Some O) by (destruct Hs as [_ B _]; congruence).
-  rewrite wr_dead; auto.
+        -- left; exists x. split; [right; apply Hincl; auto|auto].
+        -- right; split; auto.
 Qed.
 
 Lemma all_txs_rev : forall l tx, In tx (all_txs (rev l)) <-> In tx (all_txs l).
@@ -148,6 +140,23 @@ Proof.
   - apply -> in_rev; auto.
 Qed.
 
+(* ---- WriteBlockWithState ------------------------------------------------------------------------ *)
+
+Lemma J_write_block : forall b s, J s -> info t (bid b) = Some b ->
+  (alive s -> goodish b /\ bnum b <> 0 /\ In (bpar b) (d_hdr (disk_of s)) /\
+              exists p, info t (bpar b) = Some p /\ bnum p + 1 = bnum b) ->
+  J (write_block b s) /\ (alive (write_block b s) -> In (bid b) (d_hdr (disk_of (write_block b s)))) /\
+  (forall h, In h (d_hdr (disk_of s)) -> In h (d_hdr (disk_of (write_block b s)))) /\
+  (forall r, In r (d_state (disk_of s)) -> In r (d_state (disk_of (write_block b s)))) /\
+  cur (write_block b s) = cur s.
+Proof.
+  intros b s HJ Hb Hpre. unfold write_block. destruct (alive_dec s) as [Ha|Hd].
+  - destruct (Hpre Ha) as [A [B [C D]]]. pose proof HJ as [HG _].
+    destruct (Good_block_batch b (disk_of s) HG Hb A B C D) as [G1 [G2 [G3 [G4 G5]]]].
+    split; [apply J_wr; auto|]. rewrite wr_alive_disk; auto. rewrite wr_cur. auto.
+  - rewrite wr_dead; auto. split; [auto|]. split; [intros Ha; exfalso; apply Ha; auto|]. auto.
+Qed.
+
 Lemma J_wbws : forall p b s, J s ->
   info t (bid b) = Some b -> goodish b -> bnum b <> 0 -> In (bpar b) (d_hdr (disk_of s)) ->
   (exists pp, info t (bpar b) = Some pp /\ bnum pp + 1 = bnum b) ->
@@ -155,39 +164,47 @@ Lemma J_wbws : forall p b s, J s ->
   J (fst (write_block_with_state t p b s)).
 Proof.
   intros p b s HJ Hb Hgd Hn0 Hpar Hpp Hps. unfold write_block_with_state.
-  destruct (J_write_block t g b s HJ Hb Hgd Hn0 Hpar Hpp) as [HJ1 [Hext1 [Hst1 Hcur1]]].
+  destruct (J_write_block b s HJ Hb) as [HJ1 [Hst1 [Hh1 [Hs1 Hcur1]]]]; [intros _; auto|].
   set (s1 := write_block b s) in *.
-  set (s2 := if broot b =? broot p then s1 else wr false [WState (broot b)] s1).
-  assert (H2 : J s2 /\ (alive s2 -> In (bid b) (d_hdr (disk_of s2)) /\ In (broot b) (d_state (disk_of s2))
-                                     /\ In (bpar b) (d_hdr (disk_of s2)))).
+  set (s2 := if broot b =? broot p then s1 else wr [WState (broot b)] s1).
+  assert (H2 : J s2 /\ (alive s2 -> In (bid b) (d_hdr (disk_of s2)) /\ In (broot b) (d_state (disk_of s2)))).
   { unfold s2. destruct (broot b =? broot p) eqn:E.
-    - split; auto. intros Ha. apply N.eqb_eq in E. destruct Hext1 as [X1 [X2 [X3 _]]].
-      split; auto. split; [rewrite E; apply X3; auto|apply X1; auto].
-    - destruct HJ1 as [HD1 [HA1 HX1]]. split.
-      + apply J_wr_add; [split; auto| reflexivity | | | reflexivity].
-        * intros _. apply (DInv_state t g); auto.
-        * intros Ha. destruct (HA1 (wr_alive_back _ _ _ Ha)) as [Hb0 _]. exact Hb0.
-      + intros Ha. pose proof (wr_alive_back _ _ _ Ha) as Ha1. rewrite wr_alive_disk; auto. simpl.
-        destruct Hext1 as [X1 _]. split; auto. split; [apply In_addN; auto|apply X1; auto]. }
+    - split; auto. intros Ha. apply N.eqb_eq in E. split; auto. rewrite E; auto.
+    - split.
+      + apply J_wr; auto. intros _. destruct HJ1 as [HG1 _]. split; [apply Good_state; auto|reflexivity].
+      + intros Ha. pose proof (wr_alive_back _ _ Ha) as Ha1. rewrite wr_alive_disk; auto. simpl.
+        split; auto. apply In_addN; auto. }
   destruct H2 as [HJ2 Hfacts].
   set (rc := match btxs b with [] => [] | _ :: _ => [WRcpt (bid b)] end).
   assert (Hrc : rc_ok rc). { unfold rc. destruct (btxs b); [left; auto|right; eexists; eauto]. }
-  set (batch := rc ++ map (fun tx => WLook tx (bid b)) (btxs b)).
+  (* whatever is staged: if it is a good switch the final state satisfies J *)
+  assert (Hfin : forall rg,
+            (alive s2 -> let d' := apply_write (rc ++ rg ++ map (fun tx => WLook tx (bid b)) (btxs b) ++ stage_head b) (disk_of s2) in
+                         Good d' /\ d_headB d' = bid b) ->
+            J (set_future (filter (fun x => negb (x =? bid b))
+                 (future (set_cur (bid b) (wr (rc ++ rg ++ map (fun tx => WLook tx (bid b)) (btxs b) ++ stage_head b) s2))))
+                 (set_cur (bid b) (wr (rc ++ rg ++ map (fun tx => WLook tx (bid b)) (btxs b) ++ stage_head b) s2)))).
+  { intros rg Hgood. destruct HJ2 as [HG2 HC2].
+    destruct (wr_disk_cases (rc ++ rg ++ map (fun tx => WLook tx (bid b)) (btxs b) ++ stage_head b) s2) as [[E Hd]|[Ha E]].
+    - split; [simpl; rewrite E; auto|]. intros Ha2. exfalso. apply Hd.
+      apply (wr_alive_back (rc ++ rg ++ map (fun tx => WLook tx (bid b)) (btxs b) ++ stage_head b)). exact Ha2.
+    - destruct (Hgood Ha) as [G1 G2]. split; [simpl; rewrite E; auto|].
+      intros _. simpl. rewrite E. auto. }
   destruct (alive_dec s2) as [Ha2|Hd2].
-  - (* alive when the head switch starts *)
-    destruct (Hfacts Ha2) as [Hsb [Hstb Hparb]].
-    pose proof HJ2 as [HD2 [HA2 HX2]]. destruct (HA2 Ha2) as [Hb02 [HQ2 Hc2]].
+  - destruct (Hfacts Ha2) as [Hsb Hstb].
+    pose proof HJ2 as [[HD2 [HB2 HQ2]] HC2]. pose proof (HC2 Ha2) as Hc2.
     pose proof HQ2 as [[hb [Q1 [Q2 [Q3 [Q4 Q5]]]]]].
     assert (Hhbid : bid hb = d_headB (disk_of s2)) by (eapply info_bid; eauto).
     assert (Hhb : info t (bid hb) = Some hb) by (rewrite Hhbid; auto).
     assert (Hshb : In (bid hb) (d_hdr (disk_of s2))) by (rewrite Hhbid; apply (D_head t g); auto).
     destruct (bpar b =? cur s2) eqn:Elin.
     + (* parent is the head *)
-      apply N.eqb_eq in Elin. cbn [fst].
-      apply (J_window s2 _ [] [] rc b [b] [] hb hb); auto.
-      * unfold window_ws. cbn [reorg_ws flat_map map app]. cbn [wrs]. rewrite wr_nil.
-        fold batch. eapply same_trans; [|apply set_head_same].
-        constructor; auto.
+      apply N.eqb_eq in Elin. cbn [fst]. apply Hfin. intros _.
+      change (rc ++ [] ++ map (fun tx => WLook tx (bid b)) (btxs b) ++ stage_head b)
+        with (rc ++ (flat_map stage_block [] ++ map WUnlook []) ++ map (fun tx => WLook tx (bid b)) (btxs b) ++ stage_head b).
+      rewrite switch_batch_concat.
+      apply (Good_switch (disk_of s2) [] [] rc b [b] [] hb hb); auto.
+      * split; auto.
       * simpl. destruct Hpp as [pp [P1 P2]]. rewrite Elin, Hc2, Q1 in P1. inversion P1; subst pp.
         repeat split; auto. rewrite Elin, Hc2; auto.
       * simpl; auto.
@@ -198,13 +215,11 @@ Proof.
       rewrite Hc2, Q1. unfold reorg.
       destruct (reorg_chains t (disk_of s2) hb b) as [[oc nc]|] eqn:Erc; [|exact HJ2].
       destruct (reorg_chains_spec t _ _ _ _ _ Erc Hhb Hb Hshb Hsb) as [c [P1 [P2 [P3 [P4 P5]]]]].
-      cbn [fst].
+      cbn [fst]. apply Hfin. intros _.
       set (diff := filter (fun x => negb (memN x (all_txs nc))) (all_txs oc)).
-      apply (J_window s2 _ (rev nc) diff rc b nc oc c hb); auto.
-      * unfold window_ws. rewrite wrs_app. cbn [app wrs]. fold batch.
-        eapply same_trans; [apply same_set_future|].
-        eapply same_trans; [apply set_head_same|].
-        apply same_wrs. apply same_wr. apply same_wr. apply reorg_apply_same. apply same_refl.
+      rewrite switch_batch_concat.
+      apply (Good_switch (disk_of s2) (rev nc) diff rc b nc oc c hb); auto.
+      * split; auto.
       * intros x Hx. apply in_rev; auto.
       * intros x Hx. right. apply -> in_rev; auto.
       * pose proof (down_path_nodup t _ nc c P2) as Hn. rewrite map_rev. apply NoDup_rev; auto.
@@ -212,26 +227,11 @@ Proof.
         destruct (memN tx (all_txs nc)) eqn:Em; auto. apply memN_In in Em.
         exfalso. apply Hnn. apply all_txs_rev; auto.
   - (* dead before the head switch: nothing is written any more *)
-    assert (Hfin : forall s3, same s3 s2 ->
-              J (set_future (filter (fun x => negb (x =? bid b)) (future (set_head false b (wr true batch s3))))
-                   (set_head false b (wr true batch s3)))).
-    { intros s3 H3. apply (J_same t g s2); auto.
-      - apply same_sym. eapply same_trans; [|exact H3].
-        eapply same_trans; [apply same_set_future|].
-        eapply same_trans; [apply set_head_same|].
-        assert (Hd3 : budget s3 = Some O) by (destruct H3 as [_ B _]; congruence).
-        rewrite wr_dead; auto. rewrite wrs_dead; auto. apply same_refl.
-      - intros Ha. exfalso. apply Ha.
-        assert (Hd3 : budget s3 = Some O) by (destruct H3 as [_ B _]; congruence).
-        assert (E : wr true batch s3 = s3) by (apply wr_dead; auto). rewrite E.
-        unfold set_head. rewrite (wr_dead true [WHeadH (bid b)] s3 Hd3).
-        rewrite (wr_dead true [WCanon (bnum b) (bid b)] s3 Hd3). rewrite (wr_dead false [WHeadB (bid b)] s3 Hd3).
-        exact Hd3. }
     destruct (bpar b =? cur s2).
-    + cbn [fst]. apply Hfin. apply same_refl.
+    + cbn [fst]. apply Hfin. intros Ha. exfalso; apply Ha; auto.
     + destruct (info t (cur s2)) as [c|]; [|exact HJ2].
-      destruct (reorg t s2 c b) as [s3|] eqn:Er; [|exact HJ2].
-      cbn [fst]. apply Hfin. eapply reorg_dead_same; eauto.
+      destruct (reorg t (disk_of s2) c b) as [rg|] eqn:Er; [|exact HJ2].
+      cbn [fst]. apply Hfin. intros Ha. exfalso; apply Ha; auto.
 Qed.
 
 End WBWS.
